@@ -70,6 +70,10 @@ func ruleC18(r *Report) {
 	// freshness is judged on the instant the text denotes: the parse obligations of C15.ms, borrowed
 	r.Rule("C18.instants", "IssueInstant is read as the instant its text denotes: every parse arm of RelaxedTime stores Round(Millisecond) of what time.Parse returned, nothing else (C15.ms, borrowed) — a zone offset that is dropped or re-labelled shifts the freshness window", 3)
 	r.borrow("C15.ms", "C18.instants", func() { checkRelaxedTime(r, p) })
+	// ... and the decoder of the logout response supplies no instant of its own (a missing IssueInstant read as "now")
+	safely(r, func() {
+		checkDecodersPure(r, p, "C18.instants", func(tn string) bool { return tn == "LogoutResponse" || tn == "Status" || tn == "StatusCode" })
+	})
 
 	opaque := map[*ssa.Function]bool{}
 	for _, v := range sr.Validators {
